@@ -246,6 +246,13 @@ func genMapOp(t *rapid.T, label string) mapIn {
 	return mapIn{Op: rapid.SampledFrom([]string{"load", "store", "delete", "los", "losfn", "losfn"}).Draw(t, label), Key: rapid.IntRange(0, 1).Draw(t, label+"key"), Val: valCounter}
 }
 
+// rangeSeen collects what concurrent Range calls reported.
+type rangeSeen struct {
+	mu    sync.Mutex
+	pairs [][2]int
+	dups  int
+}
+
 // TestLoadOrStoreFnOwnedSchedule: caller 1 is parked inside the callback of LoadOrStoreFn while
 // caller 2 runs a generated sequence of complete operations; then caller 1 resumes.
 func TestLoadOrStoreFnOwnedSchedule(t *testing.T) {
@@ -335,6 +342,33 @@ func TestMapFreeSchedule(t *testing.T) {
 		}
 		var wg sync.WaitGroup
 		start := make(chan struct{})
+		rs := &rangeSeen{}
+		rangers := rapid.IntRange(0, 2).Draw(t, "rangers")
+		for r := 0; r < rangers; r++ {
+			wg.Add(1)
+			go func() {
+				defer wg.Done()
+				<-start
+				for k := 0; k < 3; k++ {
+					seen := map[int]int{}
+					m.Range(func(key, v int) bool {
+						runtime.Gosched()
+						seen[key]++
+						rs.mu.Lock()
+						rs.pairs = append(rs.pairs, [2]int{key, v})
+						rs.mu.Unlock()
+						return true
+					})
+					for _, n := range seen {
+						if n > 1 {
+							rs.mu.Lock()
+							rs.dups++
+							rs.mu.Unlock()
+						}
+					}
+				}
+			}()
+		}
 		for g := range progs {
 			wg.Add(1)
 			go func(g int) {
@@ -359,12 +393,20 @@ func TestMapFreeSchedule(t *testing.T) {
 		if !res {
 			t.Fatalf("C20: concurrent history of sync2.Map is not linearizable:\n%s", describe(ops))
 		}
+		if rs.dups > 0 {
+			t.Fatalf("C20: a concurrent Range visited one key twice:\n%s", describe(ops))
+		}
 		// Range: every key at most once, only values some operation stored under that key
 		stored := map[[2]int]bool{}
 		for _, o := range ops {
 			in := o.Input.(mapIn)
 			if in.Op == "store" || in.Op == "los" || in.Op == "losfn" {
 				stored[[2]int{in.Key, in.Val}] = true
+			}
+		}
+		for _, pr := range rs.pairs {
+			if !stored[[2]int{pr[0], pr[1]}] {
+				t.Fatalf("C20: a Range running concurrently with the operations reported key %d = %d, which no operation ever stored:\n%s", pr[0], pr[1], describe(ops))
 			}
 		}
 		seen := map[int]int{}
@@ -495,5 +537,28 @@ func TestSetsFreeSchedule(t *testing.T) {
 			d = append(d, fmt.Sprintf("c%d:%s", o.ClientId, setModel.DescribeOperation(o.Input, o.Output)))
 		}
 		kit.Rec.Case(which+" "+strings.Join(d, " "), len(rec.ops) >= 4, "sets/"+which)
+	})
+}
+
+// TestRealLoggerCloseErrors runs in its own process with the library's own logger (VERIF_REAL_LOGGER=1):
+// the very first error-level lines of the process are written by several failing closers at once, from
+// the goroutines of App.Close. Whatever the logger does lazily on first use happens concurrently here.
+func TestRealLoggerCloseErrors(t *testing.T) {
+	kit.Rec.Rule(rule)
+	rapid.Check(t, func(t *rapid.T) {
+		n := rapid.IntRange(2, 8).Draw(t, "n")
+		var comps []any
+		for i := 0; i < n; i++ {
+			comps = append(comps, &Closer{name: fmt.Sprintf("closer-%d", i), fail: true})
+		}
+		procs := rapid.SampledFrom([]int{2, 4, 16}).Draw(t, "gomaxprocs")
+		old := runtime.GOMAXPROCS(procs)
+		defer runtime.GOMAXPROCS(old)
+		out := kit.RunApp(app.SetComponents(comps...))
+		if !out.OK() {
+			t.Fatalf("C20: start failed: %v", out)
+		}
+		out.App.Close()
+		kit.Rec.Case(fmt.Sprintf("real-logger %d failing closers procs=%d", n, procs), true, "real-logger-close-errors")
 	})
 }
